@@ -24,7 +24,8 @@ theorem ll_eq_sum_gather (e : DEnv S) (π : S → Row) (sel : Nat → Nat → Ro
     getLLSum out.recs out.acts mask = specLL e π (s0 r) start.isSome out.acts mask := by
   intro out
   have h := decode_rowInv e π sel storeAll B N maxSteps start s0 hstart r
-  unfold getLLSum specLL
+  rw [getLLSum_eq]
+  unfold specLL
   rw [lpSum_eq_sumLP, getLL_mask, h.vals]
 
 /-- per-step version (`return_sum_log_likelihood=False`) -/
@@ -146,7 +147,7 @@ theorem select_best_is_max (B K : Nat) (rew : Nat → Int) (arg : Nat → Nat)
     (h : ValidArgmax B K rew arg) (b : Nat) (hb : b < B) :
     selectBestRow B arg b % B = b ∧ selectBestRow B arg b / B = arg b ∧ arg b < K ∧
       ∀ k, k < K → rew (k * B + b) ≤ rew (selectBestRow B arg b) := by
-  obtain ⟨h1, h2⟩ := h b hb
+  obtain ⟨h1, h2⟩ := validArgmax_le h b hb
   refine ⟨?_, ?_, h1, fun k hk => h2 k hk⟩
   · simp [selectBestRow, Nat.mul_add_mod_of_lt hb]
   · unfold selectBestRow
@@ -157,7 +158,7 @@ theorem select_best_is_max (B K : Nat) (rew : Nat → Int) (arg : Nat → Nat)
 theorem select_best_reward (B K : Nat) (rew : Nat → Int) (arg : Nat → Nat)
     (h : ValidArgmax B K rew arg) (b : Nat) (hb : b < B) :
     bestReward B rew b K = some (rew (selectBestRow B arg b)) := by
-  obtain ⟨h1, h2⟩ := h b hb
+  obtain ⟨h1, h2⟩ := validArgmax_le h b hb
   cases hbest : bestReward B rew b K with
   | none =>
     cases K with
